@@ -21,7 +21,8 @@ LEVEL_TEXT = ("All subsets of size 1-3 of a 10-element generator pool on 3 qubit
               "check_cartan_decomp and the horizontal CSA on every closure x involution.")
 LEVEL_NOTE = ("Trusted base: numpy (SVD rank tol 1e-9, least squares), qp.matrix / PauliSentence.to_mat to read results. Involutions A, BD, C are "
               "only decided on block-diagonal inputs (I/Z on the block wire) where 'x(+)y -> y(+)x' is defined. Sentence-valued bases whose "
-              "elements have mixed parity are rejected by the involutions (AssertionError/ValueError) and skipped. tol arguments left at default.")
+              "elements have mixed parity are rejected by the involutions (AssertionError/ValueError) and skipped. tol arguments left at default. "
+              "The horizontal CSA is only checked for orthogonal bases (default is_orthogonal=True precondition) of dimension <=16.")
 DESIGN_REF = "5.9 C55"
 START = "fork"
 PARALLEL = True
@@ -414,7 +415,9 @@ def check_cartan(spec):
             if chk2 != truth:
                 return bad(f"cartan:check_cartan_decomp-perturbed:{tag}", chk2, truth, **info)
     na = None
-    if form in ("ps", "matrix") and len(M_) and len(K) and len(G) <= 16 and spec.get("csa"):
+    gram = np.array([[np.trace(a_.conj().T @ b_) for b_ in K + M_] for a_ in K + M_])
+    orthogonal = bool(np.abs(gram - np.diag(np.diag(gram))).max() < 1e-9)  # documented precondition of the default call
+    if form in ("ps", "matrix") and len(M_) and len(K) and len(G) <= 16 and spec.get("csa") and orthogonal:
         kk, mm = (np.array(k), np.array(m)) if form == "matrix" else (list(k), list(m))
         newg, k3, mt, a, new_adj = qp.liealg.horizontal_cartan_subalgebra(kk, mm, verbose=0)
         Am = [as_dense(b, n) for b in a]
@@ -433,6 +436,9 @@ def check_cartan(spec):
         big = np.vstack(rows)  # coefficients c with sum_j c_j [a_i, m_j] = 0 for all i
         null_dim = len(M_) - int(np.linalg.matrix_rank(big, tol=1e-8))
         if null_dim != len(Am):
+            central = [i for i, x_ in enumerate(Am) if all(np.abs(R.com(x_, y_)).max() < 1e-9 for y_ in G)]
+            if central:  # recognised class: ad(a_i) is numerically (not exactly) zero and null_space(ad, rcond=tol) uses a relative cut-off
+                return bad("csa:not-maximal:element-of-a-is-central-in-g", {"dim_a": len(Am), "centraliser_in_m": null_dim, "central": central}, "equal", form=form, involution=name, **info)
             return bad(f"csa:not-maximal:{tag}", {"dim_a": len(Am), "centraliser_in_m": null_dim}, "equal", **info)
         na = len(Am)
     return ok(outcome=[name, sorted(kw.items()), form, len(K), len(M_), na], nontrivial=len(K) > 0 and len(M_) > 0)
